@@ -2,6 +2,7 @@ package main
 
 import (
 	"encoding/json"
+	"io"
 	"math/rand"
 	"net/http"
 
@@ -47,6 +48,7 @@ type rwSpy struct {
 	hdr    http.Header
 	log    []rwEntry
 	accept int
+	short  int
 }
 
 func (s *rwSpy) Header() http.Header { return s.hdr }
@@ -57,6 +59,13 @@ func (s *rwSpy) Write(b []byte) (int, error) {
 		n = len(b)
 	}
 	s.log = append(s.log, rwEntry{K: "body", V: n})
+	if n < len(b) {
+		// a short write comes with an error, as io.Writer demands (every other time: a writer that breaks that rule)
+		s.short++
+		if s.short%2 == 1 {
+			return n, io.ErrShortWrite
+		}
+	}
 	return n, nil
 }
 func (s *rwSpy) Flush() { s.log = append(s.log, rwEntry{K: "flush"}) }
